@@ -1,6 +1,7 @@
 /-
 C06 helper lemmas: the rule-of-three family on which the pinned `process_emphasis` is quadratic
-(`openers_bottom` is not raised after a failed search during which the rule of three skipped a candidate).
+(before /repo commit 9704a60 `openers_bottom` was not raised after a failed search during which the rule of
+three skipped a candidate; `emLoop false` is that old loop).
 -/
 import Comrak.Lemmas.CostEmph
 namespace Comrak.Cost
@@ -23,7 +24,7 @@ def qcost : Nat → Nat → Nat
   | _, 0 => 0
   | k, m + 1 => (k + 7) + qcost (k + 1) m
 
-theorem bottomIx_D1 (q : Nat) : bottomIx (D1 q) = 10 := rfl
+theorem bottomIx_D1 (q : Nat) : bottomIx false (D1 q) = 10 := rfl
 
 theorem emSearch_allD2 (q : Nat) : ∀ L : List Delim, (∀ d ∈ L, isD2 d) →
     (emSearch (D1 q) 0 L).cost = L.length ∧ (emSearch (D1 q) 0 L).hit = none ∧
@@ -41,21 +42,21 @@ theorem emLoop_skip (fix : Bool) (f : Nat) (bot : Nat → Nat) (left above : Lis
   simp [emLoop, h]
 
 theorem emLoop_fail (fix : Bool) (f : Nat) (bot : Nat → Nat) (left above : List Delim) (c : Delim)
-    (hc : c.canClose = true) (hh : (emSearch c (bot (bottomIx c)) left).hit = none) :
+    (hc : c.canClose = true) (hh : (emSearch c (bot (bottomIx fix c)) left).hit = none) :
     emLoop fix (f + 1) bot left (c :: above) =
-      (emLoop fix f (if (fix || !(emSearch c (bot (bottomIx c)) left).mod3) = true
-          then fun k => if k = bottomIx c then c.pos else bot k else bot)
-        (if c.canOpen = true then c :: left else left) above).map (1 + (emSearch c (bot (bottomIx c)) left).cost + ·) := by
+      (emLoop fix f (if (alwaysRaise fix c || !(emSearch c (bot (bottomIx fix c)) left).mod3) = true
+          then fun k => if k = bottomIx fix c then c.pos else bot k else bot)
+        (if c.canOpen = true then c :: left else left) above).map (1 + (emSearch c (bot (bottomIx fix c)) left).cost + ·) := by
   simp only [emLoop, hc, if_true]
   split
   · rename_i h2; rw [hh] at h2; exact absurd h2 (by simp)
   · rfl
 
 theorem emLoop_hit (fix : Bool) (f : Nat) (bot : Nat → Nat) (left above : List Delim) (c o : Delim) (below : List Delim)
-    (hc : c.canClose = true) (hh : (emSearch c (bot (bottomIx c)) left).hit = some (o, below)) :
+    (hc : c.canClose = true) (hh : (emSearch c (bot (bottomIx fix c)) left).hit = some (o, below)) :
     emLoop fix (f + 1) bot left (c :: above) =
       (emLoop fix f bot (shrink o (useChars o c) below) (shrink c (useChars o c) above)).map
-        (1 + (emSearch c (bot (bottomIx c)) left).cost + ·) := by
+        (1 + (emSearch c (bot (bottomIx fix c)) left).cost + ·) := by
   simp only [emLoop, hc, if_true]
   split
   · rename_i o' below' h2
@@ -87,16 +88,16 @@ theorem emLoop_fam (m : Nat) : ∀ (fuel : Nat) (bot : Nat → Nat) (L : List De
     rw [show f + 4 = (f + 3) + 1 from rfl, emLoop_skip false (f + 3) bot L _ (D2 p) rfl]
     -- step 2: `*` closer, the search walks over all the `**` openers (rule of three) and fails;
     -- `openers_bottom` is not updated
-    have hb2 : bot (bottomIx (D1 (p + 1))) = 0 := by rw [bottomIx_D1]; exact hb
+    have hb2 : bot (bottomIx false (D1 (p + 1))) = 0 := by rw [bottomIx_D1]; exact hb
     rw [show f + 3 = (f + 2) + 1 from rfl,
       emLoop_fail false (f + 2) bot (D2 p :: L) _ (D1 (p + 1)) rfl (by rw [hb2]; exact s2)]
     rw [hb2, s1, s3']
-    simp only [Bool.false_or, Bool.not_true, Bool.false_eq_true, if_false]
+    simp only [alwaysRaise, Bool.false_and, Bool.false_or, Bool.not_true, Bool.false_eq_true, if_false]
     rw [show (if (D1 (p + 1)).canOpen = true then D1 (p + 1) :: D2 p :: L else D2 p :: L) = D1 (p + 1) :: D2 p :: L from rfl]
     -- step 3: `**` again
     rw [show f + 2 = (f + 1) + 1 from rfl, emLoop_skip false (f + 1) bot _ _ (D2 (p + 2)) rfl]
     -- step 4: `*` closer finds the `*` two below
-    have hb4 : bot (bottomIx (D1 (p + 3))) = 0 := by rw [bottomIx_D1]; exact hb
+    have hb4 : bot (bottomIx false (D1 (p + 3))) = 0 := by rw [bottomIx_D1]; exact hb
     have hs4 : emSearch (D1 (p + 3)) 0 (D2 (p + 2) :: D1 (p + 1) :: D2 p :: L)
         = ⟨2, true, some (D1 (p + 1), D2 p :: L)⟩ := by
       simp [emSearch, D1, D2, oddMatch]
@@ -130,5 +131,12 @@ theorem emFam_sorted : ∀ m p, (emFam p m).Pairwise (fun a b => a.pos < b.pos) 
     simp only [emFam, List.pairwise_cons, List.mem_cons, forall_eq_or_imp, D1, D2]
     and_intros
     all_goals first | omega | exact ih1 | (intro a ha; have := ih2 a ha; omega)
+
+theorem emFam_star : ∀ m p, ∀ d ∈ emFam p m, d.ch = 0x2A
+  | 0, _ => by simp [emFam]
+  | m + 1, p => by
+    have ih := emFam_star m (p + 4)
+    simp only [emFam, List.mem_cons, forall_eq_or_imp, D1, D2]
+    exact ⟨trivial, trivial, trivial, trivial, ih⟩
 
 end Comrak.Cost
